@@ -24,7 +24,11 @@ struct Sched
     std::string str() const;
 };
 
-enum AllocMode { AM_MALLOC = 0, AM_ARENA_UP = 1, AM_ARENA_DOWN = 2, AM_PAD = 3 };
+/** AM_POOL: a private size-class allocator at a fixed address with LIFO reuse of freed blocks. Addresses - and so the
+ *  iteration order of pointer-keyed containers and what a stale pointer happens to alias - are a function of the run's own
+ *  allocation sequence only, not of the orchestrator's heap at fork time; and a freed block is handed out again at once,
+ *  which is the most hostile (still legal) behaviour towards caches keyed by raw pointers. */
+enum AllocMode { AM_MALLOC = 0, AM_ARENA_UP = 1, AM_ARENA_DOWN = 2, AM_PAD = 3, AM_POOL = 4 };
 
 /** what happened during the current / last library call (counted by the seams, never by the library) */
 struct OpCtx
